@@ -117,6 +117,27 @@ theorem C30_no_survivors_fails :
 
 /-! ### the executable run used by the correspondence -/
 
+/-- The scripted runs the harness compares with the real code are executions of the transition system, from
+    the state right after `cmd.Start()` (the leader forks the scripted children, they adjust pipes and signal
+    dispositions, then the clock and the supervisor run): every theorem above applies to them. -/
+theorem C30_script_run_is_execution (d : Nat) (sc : Script) (fuel : Nat) :
+    Reach tm (init d false) (runScript tm sc fuel (initScript d sc)) :=
+  Reach.trans (initScript_reach tm d sc) (runScript_reach tm sc fuel (initScript d sc) (by simp [initScript]))
+
+/-- Hence: whenever a scripted run ends in a timeout, it ends within the bound and with no survivor. -/
+theorem C30_script_timeout (d : Nat) (sc : Script) (fuel t : Nat)
+    (h : (runScript tm sc fuel (initScript d sc)).phase = .returned true t) :
+    t ≤ d + tm.termWait + tm.killWait ∧ (runScript tm sc fuel (initScript d sc)).survivors = 0 := by
+  have hr := C30_script_run_is_execution d sc fuel
+  refine ⟨C30_timeout_return_time d false _ t hr h, ?_⟩
+  have hg := C30_group_dead_after_timeout d false _ t hr h
+  unfold St.survivors
+  rw [List.length_eq_zero_iff, List.filter_eq_nil_iff]
+  intro p hp
+  cases hin : p.inGroup with
+  | false => simp
+  | true => simp [hg p hp hin]
+
 -- non-vacuity / sanity of `runScript`: a TERM-ignoring tree that holds the pipes is killed 30 ms after a 500 ms
 -- deadline and nobody survives; a quick command returns normally and leaves its quiet child behind.
 example :
